@@ -365,6 +365,15 @@ def predicate_history(ops: list[tuple], analyses: bool, rng, surface: str = "fd"
                     return ("analysis-writes-store:" + name,
                             f"read-only analysis `{name}` ({surface} derivatives) changed the stored "
                             f"transition state {u}-{v}", {"step": step, "analysis": name})
+            try:
+                have = {frozenset((ids[int(u)], ids[int(v)])) for u, v in k.G.edges()}
+            except (IndexError, ValueError):
+                have = None
+            if have != set(ets) or k.G.number_of_nodes() != len(ids):
+                return ("analysis-writes-store:" + name,
+                        f"read-only analysis `{name}` changed which minima / transition states are stored "
+                        f"({k.G.number_of_nodes()} minima, {k.G.number_of_edges()} transition states afterwards; "
+                        f"{len(ids)} and {len(ets)} before)", {"step": step, "analysis": name})
         # ---- the predicate
         labels = sorted(int(x) for x in k.G.nodes)
         if labels != list(range(len(ids))):
@@ -440,7 +449,7 @@ _SURF = {}
 
 
 ANALYSES = ["get_invalid_minima", "bounds_minima", "closest_enumeration", "connect_unconnected",
-            "connectivity+height", "roughness", "select_batch", "gradient+hessian", "distance_matrix"]
+            "connectivity+height", "roughness", "select_batch", "gradient+hessian", "distance_matrix", "connectivity_graph"]
 
 
 def run_analysis(impl: Impl, rng, surface: str) -> tuple[str | None, str]:
@@ -452,10 +461,14 @@ def run_analysis(impl: Impl, rng, surface: str) -> tuple[str | None, str]:
     from topsearch.similarity.similarity import StandardSimilarity
     from topsearch.potentials.test_functions import Camelback, Schwefel
     k = impl.k
-    coords = StandardCoordinates(ndim=2, bounds=[(-3.0, 3.0), (-2.0, 2.0)])
+    # ONE coordinates object for all analyses of a history, as a run has (the analyses leave it pointing wherever
+    # they last looked; the next one must not write through it)
+    coords = getattr(impl, "shared_coords", None)
+    if coords is None:
+        coords = impl.shared_coords = StandardCoordinates(ndim=2, bounds=[(-3.0, 3.0), (-2.0, 2.0)])
     sim = StandardSimilarity(0.05, 0.1)
     pot = Schwefel() if surface == "fd" else Camelback()
-    which = rng.randrange(9)
+    which = rng.randrange(len(ANALYSES))
     name = ANALYSES[which]
     try:
         if which == 0:
@@ -478,8 +491,14 @@ def run_analysis(impl: Impl, rng, surface: str) -> tuple[str | None, str]:
             for i in range(k.n_minima):
                 pot.gradient(k.get_minimum_coords(i))
                 pot.hessian(k.get_minimum_coords(i))
-        else:
+        elif which == 8:
             mp.get_distance_matrix(k, sim, coords); mp.get_ordered_minima(k)
+        else:
+            from topsearch.plotting.disconnectivity import get_connectivity_graph
+            es = [float(k.get_ts_energy(u, v)) for u, v in k.G.edges()] + [float(k.get_minimum_energy(i)) for i in range(k.n_minima)]
+            top, low = max(es), min(es)
+            # a zoom on the low-energy region: the top of the window lies below some transition states
+            get_connectivity_graph(k, low + rng.choice([0.3, 0.6, 1.05]) * (top - low + 1.0), low - 0.5, rng.choice([1, 3, 7]))
     except TypeError as e:
         return f"analysis {name} raised TypeError: {e}", name
     except Exception as e:
